@@ -284,6 +284,58 @@ def h_inspect_small(e, mnems, mode, cfg=None):
     e.claim("canary:pure", n == -1)
 
 
+SPECIAL_TEXTS = {
+    # instructions outside the C01 alphabet that the assembler accepts and the simulator executes
+    # (CSR accesses: "not visualised" - the single-cycle visualisation getter takes its early-return path)
+    "csr": "addi x5, x0, 1\ncsrrw x6, 0x001, x5\naddi x7, x5, 2\ncsrrsi x8, 0x001, 3\nadd x9, x8, x6\ncsrrc x10, 0x002, x5\ncsrrwi x11, 0x7, 9\ncsrrci x12, 0x001, 1",
+    "csr-first": "csrrs x6, 0x001, x0\nsub x7, x6, x5\ncsrrw x0, 0x001, x7",
+    "mixed": "lui x5, 4\nsw x6, 0(x5)\ncsrrw x7, 0x001, x6\nlw x8, 0(x5)\nbeq x8, x6, 8\naddi x9, x0, 1\ncsrrci x10, 0x001, 0\nsrai x11, x8, 3",
+}
+
+
+def h_inspect_text(e, which, mode, cfg=None):
+    """a fixed instruction sequence (assembled by the real parser) on symbolic initial registers
+    and memory: all getters after every step, compared with a fresh never-inspected twin"""
+    from symx.state import mk_riscv, place_instructions
+    from architecture_simulator.simulation.riscv_simulation import RiscvSimulation
+    from architecture_simulator.simulation.runtime_errors import InstructionExecutionException
+
+    tmp = RiscvSimulation()
+    tmp.load_program(SPECIAL_TEXTS[which])
+    items = sorted(tmp.state.instruction_memory.instructions.items())
+
+    def build():
+        dc, ic = mk_caches(cfg)
+        c_ = mk_riscv(e, mode=mode, dcache=dc, icache=ic)
+        place_instructions(e, c_, items)
+        return c_
+
+    c = build()
+    for i in range(1, 32):
+        e.assume(cond("<", c.regs0.get(i), 2**31))
+    names = getters(c.sim)
+    q = e.int("q", 0, 31)
+    qa = e.int("qa", 0, 2**32 - 1)
+    n = 0
+    inspect_all(e, c, q, qa, items, names, "s0")
+    while not c.sim.is_done() and n < 40:
+        try:
+            c.sim.step()
+        except InstructionExecutionException:
+            break
+        n += 1
+        inspect_all(e, c, q, qa, items, names, "s%d" % n)
+        u = build()
+        try:
+            for _ in range(n):
+                u.sim.step()
+        except InstructionExecutionException:
+            break
+        compare_with_uninspected(e, c, u, names, "s%d" % n, q, qa, items)
+    e.observe("steps", n)
+    e.claim("canary:pure", n == -1)
+
+
 def h_inspect_toy(e, steps=2):
     from symx.state import ToyInputs, mk_toy
     from checks.c20 import snapshot as toy_snapshot
@@ -350,7 +402,7 @@ def h_inspect_toy_table(e, opcode):
     e.claim("canary:pure", a.next_cycle == 7)
 
 
-HARNESSES = {"inspect": h_inspect, "small": h_inspect_small, "toy": h_inspect_toy, "toy_table": h_inspect_toy_table}
+HARNESSES = {"inspect": h_inspect, "text": h_inspect_text, "small": h_inspect_small, "toy": h_inspect_toy, "toy_table": h_inspect_toy_table}
 MODES = ["single_stage_pipeline", "five_stage_pipeline"]
 CFGS = [None, ("wb", "lru", 1, 0, 2), ("wt", "plru", 1, 1, 2)]
 # the small harness keeps all addresses within two words: single-set caches make them compete
@@ -381,6 +433,9 @@ def jobs(tier, seed):
         for ci, cfg in enumerate(SMALL_CFGS[:3] if quick else SMALL_CFGS):
             for sk in ((["sw"], ["sb", "lw"], ["sw", "sw", "lw", "lw"]) if quick else (["sw"], ["sb", "sw"], ["sw", "lw"], ["sw", "sw"], ["sw", "sw", "lw", "lw"], ["sw", "lw", "sw", "lw"], ["sh", "sb", "lbu"])):
                 out.append(dict(common, label="small%s-c%d:%s" % (ms, ci, ",".join(sk)), harness="small", args={"mnems": sk, "mode": mode, "cfg": cfg}, cost=20, validate_every=2))
+    for mode in MODES:
+        for which in SPECIAL_TEXTS:
+            out.append(dict(common, label="text%s:%s" % ("1" if mode.startswith("single") else "5", which), harness="text", args={"which": which, "mode": mode, "cfg": CFGS[1] if which == "mixed" else None}, cost=30, validate_every=2))
     out.append(dict(common, label="toy", harness="toy", args={"steps": 2}, cost=100, validate_every=10))
     for k in range(13):
         out.append(dict(common, label="toy-table-op%d" % k, harness="toy_table", args={"opcode": k}, cost=10, validate_every=3))
